@@ -31,7 +31,7 @@ def run(res):
     exe, err = vlib.build_harness("codec")
     if exe is None:
         raise vlib.Infra("harness does not build against /repo (is the tree compilable?):\n" + err)
-    n, mal = (1400, 1400) if quick else (24000, 24000)
+    n, mal = (1200, 1200) if quick else (24000, 24000)
     out = vlib.harness(exe, ["gen", "-seed", str(res.seed), "-n", str(n), "-mal", str(mal), "-maxlen", str(cc.harness_maxlen())])
     es, ds = cc.parse_lines(out)
     _, corpus = cc.parse_lines("\n".join(cc.corpus_lines(exe, "C12") + cc.corpus_lines(exe, "C11")))
